@@ -30,21 +30,14 @@ static std::string freed_blocks_wiped(const char* call) {
         return std::string("during ") + call + " a block reached the injected free without having been wiped by the injected wipe function (content " + vf::hex(k.freed[g_freed_seen].content).substr(0, 80) + "...)";
     return "";
 }
-// writable static storage of the executable (.data/.bss; the library is linked statically, so its own statics live here).
-// The harness keeps every copy of secret material on the heap or in thread-local storage, so a secret pattern found
-// here was put there by the library.
+// Writable static storage that the objects of the library contribute to the executable (taken from the linker map by the
+// driver: <exe>.libstatics, see vf::StaticGuard).  Only these regions are searched: the harness's own statics contain English
+// prose (messages) that can coincide with twelve bytes of an English phrase - an earlier version searched the whole data
+// segment and raised two such false alarms in a thorough run.
 static std::vector<std::pair<uint8_t*, size_t>> static_ranges() {
     static std::vector<std::pair<uint8_t*, size_t>> r; static bool init = false; if (init) return r; init = true;
-    char exe[512]; ssize_t n = readlink("/proc/self/exe", exe, sizeof exe - 1); if (n <= 0) return r; exe[n] = 0;
-    FILE* f = fopen("/proc/self/maps", "r"); if (!f) return r; char line[1024]; unsigned long last_end = 0; bool last_exe = false;
-    while (fgets(line, sizeof line, f)) {
-        unsigned long a, b; char perms[8] = {0}, path[600] = {0}; int got = sscanf(line, "%lx-%lx %7s %*s %*s %*s %599[^\n]", &a, &b, perms, path);
-        if (got < 3) continue; bool rw = perms[0] == 'r' && perms[1] == 'w'; bool is_exe = got >= 4 && strcmp(path, exe) == 0; bool anon = got < 4 || path[0] == 0;
-        if (rw && is_exe) { r.emplace_back((uint8_t*)a, (size_t)(b - a)); last_exe = true; last_end = b; }
-        else if (rw && anon && last_exe && a == last_end) { r.emplace_back((uint8_t*)a, (size_t)(b - a)); last_end = b; }   // .bss continuation
-        else last_exe = false;
-    }
-    fclose(f); return r;
+    vf::StaticGuard& g = vf::static_guard(); g.load(); for (auto& reg : g.regions) r.emplace_back(reg.p, reg.n);
+    return r;
 }
 struct Pat { std::string what; std::string bytes; size_t window; int idxw = 0; };   // idxw: width of one index for index-array patterns
 static bool window_ok(const Pat& p, size_t off);
